@@ -31,6 +31,7 @@ class Shape:
 def _ap(**kw):
     from jsonargparse import ArgumentParser
 
+    kw.setdefault("prog", "app")
     return ArgumentParser(exit_on_error=False, **kw)
 
 
